@@ -27,6 +27,9 @@ PINV_ALGS = ["omitted", "Auto", "LSTSQ", "CG"]
 
 @st.composite
 def cases(draw, tier):
+    if draw(st.integers(1, 1000 if tier == "quick" else 250)) == 1:
+        return {"fn": draw(st.sampled_from(["svd", "pinv"])), "kind": "large", "m": 1001, "n": 1001, "cplx": False, "seed": draw(st.integers(0, 10**5)),
+                "k": draw(st.integers(1, 3)), "alg": draw(st.sampled_from(["Auto(kw)", "Auto(kw)", "omitted"])), "ncol": 0, "tol_exp": -8, "bdt": "same"}
     fn = draw(st.sampled_from(["svd", "svd", "pinv"]))
     kind = draw(st.sampled_from(["dense", "dense", "dense", "eye", "diag", "smul", "perm"]))
     lim = 8 if tier == "quick" else 12
@@ -77,12 +80,56 @@ def build(case):
     return ops.Permutation(p, dtype=np.float64), P
 
 
+def check_large(case, out):
+    """the large (> 1e6 entries) branch of the Auto rules: matrix-free 1001 x 1001 operator 2 I + U diag(s) V^T"""
+    import cola
+    from cola.linalg.svd.svd import svd
+    L = cola.linalg
+    n, seed, k = 1001, case["seed"], case["k"]
+    rng = np.random.default_rng(seed)
+    r = 4
+    U, _ = np.linalg.qr(rng.standard_normal((n, r)))
+    V = U @ np.diag([1.0, -1.0, 1.0, -1.0])  # same range with sign flips: singular values 2 +- s_i, condition number ~ 20
+    s = np.array([40.0, 25.0, 15.0, 9.0])
+    M = 2.0 * np.eye(n) + (U * s) @ V.T
+    A = cola.ops.LinearOperator(np.float64, (n, n), matmat=lambda X: 2.0 * X + U @ (s[:, None] * (V.T @ X)))
+    out.label("fn:" + case["fn"], "kind:large", "alg:" + case["alg"])
+    out.nontrivial = True
+    site = f"{case['fn']}:large:{case['alg']}"
+    alg = [] if case["alg"] == "omitted" else [L.Auto(max_iters=60, tol=1e-10)]
+    try:
+        if case["fn"] == "svd":
+            Uo, So, Vo = svd(A, k, "LM", *alg) if alg else svd(A, k)
+            Ud, Sd, Vd = np.asarray(Uo.to_dense()), np.asarray(So.to_dense()), np.asarray(Vo.to_dense())
+            Uf, sf, Vhf = np.linalg.svd(M)
+            best = (Uf[:, :k] * sf[:k]) @ Vhf[:k]
+            if Sd.shape != (k, k):
+                out.fail("factors", site, "count", f"Sigma {Sd.shape} for k={k}")
+                return
+            err = np.abs(Ud @ Sd @ Vd.conj().T - best).max()
+            if not np.isfinite(err) or err > 1e-5 * sf[0]:
+                out.fail("reconstruct", site, "value", f"|U S V^H - best rank-{k}| = {err:.3e}")
+        else:
+            b = rng.standard_normal(n)
+            x = np.asarray(L.pinv(A, *alg) @ b)
+            xref = np.linalg.solve(M, b)
+            if not np.all(np.isfinite(x)) or np.linalg.norm(x - xref) > 1e-4 * np.linalg.norm(xref):
+                out.fail("value", site, "not_min_norm_lstsq", f"|x - x_ref|/|x_ref| = {np.linalg.norm(x - xref) / np.linalg.norm(xref):.3e}")
+    except Exception as e:
+        if oracle.is_contract_refusal(e):
+            out.refusals += 1
+            return
+        out.fail("call", site, oracle.exc_man(e), e)
+
+
 def check(case, out):
     import cola
     from cola.linalg.svd.svd import DenseSVD, svd
     from cola.linalg.inverse.pinv import LSTSQ
     L = cola.linalg
     fn = case["fn"]
+    if case["kind"] == "large":
+        return check_large(case, out)
     A, M = build(case)
     m, n = M.shape
     r = min(m, n)
